@@ -1,11 +1,11 @@
 package checks
 
 import (
-	"os"
 	"context"
 	"errors"
 	"fmt"
 	"net"
+	"os"
 	"strings"
 	"time"
 
@@ -55,10 +55,10 @@ func (w *world) openWConns() []string {
 // ---- C01 layer 2: routing observed on the wire
 
 type c01WParams struct {
-	splits   []string
-	k1, k2   string
-	kind     string
-	table2   string // table of the second request
+	splits []string
+	k1, k2 string
+	kind   string
+	table2 string // table of the second request
 }
 
 func (p c01WParams) String() string {
@@ -296,14 +296,15 @@ func c20WUnits(thorough bool) []*explore.Unit {
 }
 
 // c19WUnits: Close against requests travelling over real region clients. Two families:
-//   close@k   Close starts once k requests have reached a server (it then competes under
-//             the default schedule); requests are answered.
-//   step k    Close starts at scheduling step k of the execution, for every k up to the
-//             length of the Close-free run (vrt.AwaitFirst: an interrupt, it costs no
-//             deviation), with the user requests answered or held in flight by the servers.
-//             Every schedule "Close begins anywhere + d further deviations" is covered, which
-//             includes a sender that is past its done check when Close shuts its connection
-//             (Close begins there, one deviation takes it out again before the socket closes).
+//
+//	close@k   Close starts once k requests have reached a server (it then competes under
+//	          the default schedule); requests are answered.
+//	step k    Close starts at scheduling step k of the execution, for every k up to the
+//	          length of the Close-free run (vrt.GoInterrupt: an interrupt, it costs no
+//	          deviation), with the user requests answered or held in flight by the servers.
+//	          Every schedule "Close begins anywhere + d further deviations" is covered, which
+//	          includes a sender that is past its done check when Close shuts its connection
+//	          (Close begins there, one deviation takes it out again before the socket closes).
 func c19WUnits(thorough bool) []*explore.Unit {
 	var units []*explore.Unit
 	type variant struct {
@@ -330,13 +331,16 @@ func c19WUnits(thorough bool) []*explore.Unit {
 			base := len(cl.Attempts)
 			fin := make(chan int, 3)
 			errs = [2]error{}
-			vrt.GoNamed("h:closer", func() {
-				late := false
-				tm := vrt.AfterFunc(time.Hour, func() { late = true })
-				switch {
-				case v.step != -2:
-					vrt.AwaitFirst("h:close-at-step", func() bool { return late || (v.step >= 0 && vrt.Steps() >= v.step) })
-				case v.at >= 0:
+			late := false
+			tm := vrt.AfterFunc(time.Hour, func() { late = true })
+			spawn := vrt.GoNamed
+			if v.step != -2 {
+				spawn = func(name string, f func()) {
+					vrt.GoInterrupt(name, func() bool { return late || (v.step >= 0 && vrt.Steps() >= v.step) }, f)
+				}
+			}
+			spawn("h:closer", func() {
+				if v.step == -2 && v.at >= 0 {
 					vrt.Await("h:close-trigger", func() bool { return late || len(cl.Attempts)-base >= v.at })
 				}
 				tm.Stop()
